@@ -26,8 +26,9 @@ TExit == Is("Exit") /\ Exit(Ev.t) /\ K
 TRefuse == Is("Refuse") /\ Refuse(Ev.t, Ev.kind) /\ K
 TBlocked == Is("Blocked") /\ Blocked(Ev.t, Ev.unw) /\ K
 TDone == Is("Done") /\ Done(Ev.t) /\ K
+TQuiet == Is("Quiet") /\ Quiet(SeqSet(Ev.blocked))
 TTerminal == Is("Terminal") /\ Terminal(SeqSet(Ev.stuck), Ev.residue)
-TraceNext == TReq \/ TEnter \/ TExit \/ TRefuse \/ TBlocked \/ TDone \/ TTerminal
+TraceNext == TReq \/ TEnter \/ TExit \/ TRefuse \/ TBlocked \/ TDone \/ TQuiet \/ TTerminal
 
 Accepted == l = Len(Events) + 1
 EmitAcc == Accepted => PrintT(<<"ACC", ToJson(tid)>>)
